@@ -122,6 +122,16 @@ def poly(t, atoms=None):
                 return _add(lo, atom((IOTA, _freeze(n))))
         if nm in ('float', 'int') and len(t[2]) == 1:
             return poly(t[2][0], atoms)
+        # value-preserving wrappers: np.copy(x), np.array(x), x.copy(),
+        # x.astype(float)
+        if nm in ('copy', 'array', 'asarray', 'deepcopy', 'astype',
+                  'ascontiguousarray'):
+            is_lib = f[0] == 'attr' and f[1][0] == 'name' and f[1][1] in (
+                'np', 'numpy', 'torch', 'copy')
+            if (is_lib or f[0] == 'name') and len(t[2]) >= 1:
+                return poly(t[2][0], atoms)
+            if f[0] == 'attr' and not is_lib:
+                return poly(f[1], atoms)
     return atom(t)
 
 
